@@ -30,6 +30,8 @@
 #include <sys/stat.h>
 #include <sys/types.h>
 #include <sys/uio.h>
+#include <sys/socket.h>
+#include <time.h>
 #include <unistd.h>
 
 #define MAXFD 4096
@@ -68,9 +70,21 @@ static int (*real_ftruncate64)(int, off_t);
 static void *(*real_mmap)(void *, size_t, int, int, int, off_t);
 static void *(*real_mmap64)(void *, size_t, int, int, int, off_t);
 
+/* transient failures of accept(2): the next `fail_accepts` calls fail with `fail_accept_errno` */
+static int (*real_accept4)(int, struct sockaddr *, socklen_t *, int);
+static int (*real_accept)(int, struct sockaddr *, socklen_t *);
+static volatile long fail_accepts = 0, failed_accepts = 0;
+static volatile int fail_accept_errno = 0;
+/* a stepped wall clock: CLOCK_REALTIME readings are shifted by this many nanoseconds */
+static int (*real_clock_gettime)(clockid_t, struct timespec *);
+static volatile long long clock_shift_ns = 0;
+
 static void init(void) __attribute__((constructor));
 static void init(void) {
     real_open64 = dlsym(RTLD_NEXT, "open64");
+    real_accept4 = dlsym(RTLD_NEXT, "accept4");
+    real_accept = dlsym(RTLD_NEXT, "accept");
+    real_clock_gettime = dlsym(RTLD_NEXT, "clock_gettime");
     real_open = dlsym(RTLD_NEXT, "open");
     real_openat = dlsym(RTLD_NEXT, "openat");
     real_write = dlsym(RTLD_NEXT, "write");
@@ -369,4 +383,38 @@ void *mmap(void *a, size_t l, int prot, int flags, int fd, off_t off) {
 void *mmap64(void *a, size_t l, int prot, int flags, int fd, off_t off) {
     note_mmap(prot, flags, fd);
     return (real_mmap64 ? real_mmap64 : real_mmap)(a, l, prot, flags, fd, off);
+}
+
+/* ---- accept(2) and the wall clock ---- */
+void iotrace_fail_accepts(long n, int err) { fail_accept_errno = err; failed_accepts = 0; fail_accepts = n; }
+long iotrace_failed_accepts(void) { return failed_accepts; }
+void iotrace_clock_shift(long long ns) { clock_shift_ns = ns; }
+
+static int accept_fault(void) {
+    if (fail_accepts > 0 && __sync_fetch_and_sub(&fail_accepts, 1) > 0) {
+        __sync_fetch_and_add(&failed_accepts, 1);
+        errno = fail_accept_errno;
+        return 1;
+    }
+    return 0;
+}
+int accept4(int fd, struct sockaddr *a, socklen_t *l, int flags) {
+    if (!real_accept4) real_accept4 = dlsym(RTLD_NEXT, "accept4");
+    if (accept_fault()) return -1;
+    return real_accept4(fd, a, l, flags);
+}
+int accept(int fd, struct sockaddr *a, socklen_t *l) {
+    if (!real_accept) real_accept = dlsym(RTLD_NEXT, "accept");
+    if (accept_fault()) return -1;
+    return real_accept(fd, a, l);
+}
+int clock_gettime(clockid_t id, struct timespec *ts) {
+    if (!real_clock_gettime) real_clock_gettime = dlsym(RTLD_NEXT, "clock_gettime");
+    int r = real_clock_gettime(id, ts);
+    if (r == 0 && id == CLOCK_REALTIME && clock_shift_ns != 0) {
+        long long t = (long long)ts->tv_sec * 1000000000LL + ts->tv_nsec + clock_shift_ns;
+        ts->tv_sec = t / 1000000000LL;
+        ts->tv_nsec = t % 1000000000LL;
+    }
+    return r;
 }
